@@ -71,7 +71,7 @@ def gen_queue(rng, tier, seed):
         else:
             ops.append(['drain', c])
     # an application that says good-bye from its 'disconnection' listener: a packet sent on the connection that is going away
-    return {'B': B, 'nconn': nconn, 'via_host': via_host, 'ops': ops, 'bye': bool(via_host) and rng.random() < 0.35}
+    return {'B': B, 'nconn': nconn, 'via_host': via_host, 'ops': ops, 'bye': bool(via_host) and rng.random() < 0.35, 'B_iso': rng.choice([1, 2, 3])}
 
 
 class _Stub:
@@ -104,6 +104,51 @@ class _Stub:
         if sum(self.out.values()) > self.B:
             self.sim.violation_once('overrun', f'overrun:over_report={int(self.over_report_seen)}',
                                f'{sum(self.out.values())} packets outstanding at a {self.B}-buffer controller')
+
+
+def _iso_pool(sim, host, b_iso, hci):
+    """The isochronous pool the host learnt by itself: never more ISO packets outstanding than the controller advertised, and
+    the rest flows as completions come back."""
+    ISO_HANDLE = 0x0E00
+    out = []
+    real = host.hci_sink
+
+    class IsoSink:
+        def on_packet(self_inner, packet: bytes) -> None:
+            if packet and packet[0] == 0x05:
+                out.append(bytes(packet))
+            else:
+                real.on_packet(packet)
+    host.set_packet_sink(IsoSink())
+    try:
+        if getattr(host, 'iso_packet_queue', None) is None:
+            sim.violation_once('iso-stall', 'stall:iso-pool:no-queue', f'the controller advertised {b_iso} ISO buffers, the host set up no ISO queue: ISO data can never be sent')
+            return
+        host.on_packet(bytes(hci.HCI_LE_CIS_Established_Event(
+            status=0, connection_handle=ISO_HANDLE, cig_sync_delay=0, cis_sync_delay=0, transport_latency_c_to_p=0, transport_latency_p_to_c=0,
+            phy_c_to_p=1, phy_p_to_c=1, nse=0, bn_c_to_p=0, bn_p_to_c=0, ft_c_to_p=0, ft_p_to_c=0, max_pdu_c_to_p=0, max_pdu_p_to_c=0, iso_interval=0)))
+        total = b_iso + 3
+        for k in range(total):
+            host.send_iso_sdu(ISO_HANDLE, bytes([k]) * 20)
+        sim.loop.settle()
+        sim.probe('iso_packets_through_the_learnt_pool')
+        if len(out) > b_iso:
+            sim.violation_once('iso-overrun', 'overrun:iso-pool', f'{len(out)} ISO packets outstanding at a controller that advertised {b_iso} ISO buffers')
+            return
+        done = 0
+        for _ in range(total + 2):
+            if len(out) - done <= 0:
+                break
+            done += 1
+            host.on_packet(bytes(hci.HCI_Number_Of_Completed_Packets_Event(connection_handles=[ISO_HANDLE], num_completed_packets=[1])))
+            sim.loop.settle()
+            if len(out) - done > b_iso:
+                sim.violation_once('iso-overrun', 'overrun:iso-pool', f'{len(out) - done} ISO packets outstanding, {b_iso} buffers')
+                return
+        if len(out) != total:
+            sim.violation_once('iso-stall', 'stall:iso-pool', f'{len(out)} of {total} ISO packets handed over although every one handed over was completed')
+    finally:
+        host.set_packet_sink(real)
 
 
 def run_queue(case):
@@ -149,6 +194,7 @@ def run_queue(case):
                 c = Controller('C', link=None)
                 c.acl_data_packet_length, c.total_num_acl_data_packets = 27, B
                 c.le_acl_data_packet_length, c.total_num_le_acl_data_packets = 0, 0
+                c.iso_data_packet_length, c.total_num_iso_data_packets = 100, case.get('B_iso', 2)
                 h = Host(c, AsyncPipeSink(c))
                 await h.reset()
                 h.set_packet_sink(Sink())
@@ -157,6 +203,19 @@ def run_queue(case):
             host, q = sim.must(mk_reset() if via_host == 'reset' else mk(), 'host')
             if via_host == 'reset':
                 sim.probe('host_learnt_shared_buffer_geometry_by_reset')
+                # (the isochronous pool is looked at on a host of its own, whose controller also has dedicated LE ACL buffers - more
+                # of them than ISO buffers)
+                async def mk_iso():
+                    from bumble.controller import Controller
+                    from bumble.transport.common import AsyncPipeSink
+                    c = Controller('Ciso', link=None)
+                    c.acl_data_packet_length, c.total_num_acl_data_packets = 27, B
+                    c.le_acl_data_packet_length, c.total_num_le_acl_data_packets = 27, case.get('B_iso', 2) + 5
+                    c.iso_data_packet_length, c.total_num_iso_data_packets = 100, case.get('B_iso', 2)
+                    h = Host(c, AsyncPipeSink(c))
+                    await h.reset()
+                    return h
+                _iso_pool(sim, sim.must(mk_iso(), 'iso host'), case.get('B_iso', 2), hci)
 
             def connect(hd):
                 if via_host == 'reset' and handles.index(hd) % 2 == 1:
